@@ -349,10 +349,13 @@ func (b *builder) datagram(class string, op model.Op, a *model.Args, S uint32) [
 		return model.GenReply(r, op, a, S, model.ReplyOpts{OOD: true, Junk: r.Intn(4) == 0})
 	case "wronglen":
 		d := valid()
+		if op == model.GetStatus && r.Intn(3) == 0 {
+			d[0] = 0x19 // the v6.62 marker in front of a message of the wrong length
+		}
 		var n int
 		switch r.Intn(6) {
 		case 0:
-			n = pick(r, 0, 1, 7, 8, 63, 65, 128, 1024, 2047, 2048, 2049, 4096)
+			n = pick(r, 0, 1, 1, 2, 3, 4, 7, 8, 63, 65, 128, 1024, 2047, 2048, 2049, 4096)
 		case 1:
 			n = r.Intn(64)
 		default:
@@ -757,7 +760,23 @@ func genC03(b *builder) {
 func genC06(b *builder) {
 	r := b.r
 	b.base(baseOpt{minCtl: 1, maxCtl: 4, maxClients: 3, extraEndpoints: true, badDevAddrs: true})
-	tk := engine.Task{}
+	if r.Intn(8) == 0 {
+		// the event listener of a client runs beside its calls - now and then on the very port the client binds
+		// its requests to (then a request either leaves from that address or does not leave at all)
+		c := &b.sc.Clients[0]
+		if lap, err := netip.ParseAddrPort(c.Listen); err == nil && r.Intn(2) == 0 {
+			ip := "0.0.0.0"
+			if bap, err := netip.ParseAddrPort(c.Bind); err == nil {
+				ip = bap.Addr().String()
+			}
+			c.Bind = fmt.Sprintf("%s:%d", ip, lap.Port())
+		}
+		ls := b.listenStep(0)
+		ls.Holds = nil
+		ls.StopAfter = time.Duration(1+r.Intn(4)) * time.Second
+		b.sc.Tasks = append(b.sc.Tasks, engine.Task{Steps: []engine.Step{ls}})
+	}
+	tk := engine.Task{Start: time.Duration(r.Intn(2)) * time.Millisecond}
 	ns := 1 + b.n(6)
 	for s := 0; s < ns; s++ {
 		client := r.Intn(len(b.sc.Clients))
@@ -941,11 +960,18 @@ func genC09(b *builder) {
 	if queued {
 		nt = 2 + b.n(4)
 	}
+	crowd := queued && r.Intn(16) == 0
+	if crowd {
+		nt = 17 + r.Intn(10) // a crowd waiting for the one port: served in turn, every one of them
+	}
 	for t := 0; t < nt; t++ {
 		tk := engine.Task{Start: time.Duration(r.Intn(3)) * time.Millisecond}
 		ns := 1 + b.n(6)
 		if queued {
 			ns = 1 + r.Intn(3)
+		}
+		if crowd {
+			ns = 1
 		}
 		for s := 0; s < ns; s++ {
 			client := r.Intn(len(sc.Clients))
@@ -984,6 +1010,14 @@ func genC09(b *builder) {
 					d := model.GenReply(r, model.GetDevice, &a, model.GenSerial(r), model.ReplyOpts{})
 					st.Plan.Emits = append(st.Plan.Emits, engine.Emit{After: b.delay(T), Via: "udp", From: fmt.Sprintf("%s.%d:60000", b.prefix, 100+r.Intn(100)), Data: d, Class: "valid"})
 				}
+				tk.Steps = append(tk.Steps, st)
+				continue
+			}
+			if crowd {
+				if rt.Path == "tcp" {
+					st.Plan.TCP = "accept"
+				}
+				valid(time.Duration(r.Int63n(int64(T)/64 + 1)))
 				tk.Steps = append(tk.Steps, st)
 				continue
 			}
@@ -1134,10 +1168,17 @@ func genC11(b *builder) {
 				gap = 1
 			}
 			at := time.Duration(r.Int63n(int64(T) / 4))
+			noisy := r.Intn(2) == 0
 			for i := 0; i < m; i++ {
 				at += gap
 				d := model.GenReply(r, model.GetDevice, &a, model.GenSerial(r), model.ReplyOpts{})
 				st.Plan.Emits = append(st.Plan.Emits, engine.Emit{After: at, Via: "udp", From: fmt.Sprintf("%s.%d:60000", b.prefix, 10+i%80), Data: d, Class: "valid"})
+				if noisy && r.Intn(8) == 0 {
+					// noise of odd lengths among them
+					at += gap / 2
+					x := b.datagram(pick(r, "wronglen", "garbage"), model.GetDevice, &a, model.GenSerial(r))
+					st.Plan.Emits = append(st.Plan.Emits, engine.Emit{After: at, Via: "udp", From: fmt.Sprintf("%s.%d:60000", b.prefix, 200+i%50), Data: x, Class: "wronglen"})
+				}
 			}
 		}
 		r.Shuffle(len(st.Plan.Emits), func(i, j int) { st.Plan.Emits[i], st.Plan.Emits[j] = st.Plan.Emits[j], st.Plan.Emits[i] })
@@ -1204,7 +1245,19 @@ func (b *builder) listenStep(client int) engine.Step {
 		n = b.n(40)
 	}
 	senders := []string{b.prefix + ".100:60000", b.prefix + ".101:60000", b.prefix + ".77:54321"}
+	if ap, err := netip.ParseAddrPort(b.sc.Clients[client].Bind); err == nil && ap.Port() != 0 && r.Intn(3) == 0 {
+		// a sender that happens to use the very address and port this client sends its own requests from
+		ip := ap.Addr().String()
+		if ap.Addr().IsUnspecified() {
+			ip = b.sc.HostIP
+		}
+		senders[r.Intn(2)] = fmt.Sprintf("%s:%d", ip, ap.Port())
+	}
 	span := time.Duration(1+r.Intn(500)) * time.Millisecond
+	if r.Intn(30) == 0 {
+		// a long burst of events while the application's callback is slow
+		n = pick(r, 66, 70, 130, 200)
+	}
 	for i := 0; i < n; i++ {
 		d, cl := b.eventDatagram()
 		at := time.Duration(r.Int63n(int64(span)))
@@ -1226,6 +1279,15 @@ func (b *builder) listenStep(client int) engine.Step {
 		for i := 0; i < 6; i++ {
 			st.Holds = append(st.Holds, pick(r, 0, 0, time.Millisecond, span/3, span))
 		}
+	}
+	if n > 60 {
+		// all of them at (nearly) the same instant, the first callbacks slow
+		at := time.Duration(r.Int63n(int64(span)))
+		for i := range st.Feed {
+			st.Feed[i].After = at + time.Duration(i/8)
+		}
+		st.Holds = []time.Duration{span / 4, span / 4, time.Millisecond}
+		st.StopAfter = at + span + 1
 	}
 	st.OnErrFalse = r.Intn(4) == 0 // what OnError returns is the application's business: the listener goes on either way
 	if st.OnErrFalse && r.Intn(2) == 0 {
@@ -1454,6 +1516,11 @@ func genC08(b *builder) {
 	if r.Intn(3) == 0 {
 		nt = 2
 	}
+	crowd := r.Intn(20) == 0
+	if crowd {
+		nt = 17 + r.Intn(10)
+	}
+	dated := r.Intn(8) == 0 // every call carries calendar dates in its reply
 	listening := false
 	for t := 0; t < nt; t++ {
 		tk := engine.Task{}
@@ -1461,10 +1528,14 @@ func genC08(b *builder) {
 			tk.Start = time.Duration(r.Intn(4)) * time.Millisecond
 		}
 		ns := 1 + b.n(4)
+		if crowd {
+			ns = 1
+		}
 		for s := 0; s < ns; s++ {
 			client := r.Intn(len(sc.Clients))
 			T := sc.Clients[client].Timeout
 			switch {
+			case crowd || dated:
 			case !listening && t > 0 && r.Intn(10) == 0:
 				// a listener started, fed and stopped alongside the calls
 				listening = true
@@ -1483,6 +1554,9 @@ func genC08(b *builder) {
 				continue
 			}
 			op := b.anyCallOp()
+			if dated {
+				op = pick(r, model.GetCardByIndex, model.GetCardByID, model.GetTimeProfile, model.GetDevice, model.GetStatus, model.GetEvent, model.GetTime)
+			}
 			serial, known := b.target()
 			if known == nil || r.Intn(3) == 0 {
 				// same controller as somebody else, whenever possible
